@@ -71,3 +71,24 @@ def c09(ctx, rep):
     cmptables.rule_fee_tables(ctx, rep)
     cmptables.rule_fee_lattice(ctx, rep)
     cmptables.rule_fee_store(ctx, rep)
+
+
+@prop("C08", "Decides the structural clauses of C08: (T-LATTICE(addr)) union/intersection with ANY/NO markers denote set "
+             "union/intersection (all pairs of abstract elements); (T-CMP(addr)) ==/!= table for the four governed fields x "
+             "{ZeroAddress, literal, zero literal, CreatorAddress} x both operand orders, other operators and unrelated values "
+             "give (ANY, ANY); (T-STORE(addr)) _set_addr_values and key->attribute pairing over self/at-index/absolute/relative "
+             "contexts. Not decided: the fixpoint over all programs.")
+def c08(ctx, rep):
+    cmptables.rule_addr_lattice(ctx, rep)
+    cmptables.rule_addr_tables(ctx, rep)
+    cmptables.rule_addr_store(ctx, rep)
+
+
+@prop("C07", "Decides the structural clause of C07: (T-KIND) for every cell of the transaction-kind comparison table - field in "
+             "{TypeEnum, OnCompletion, ApplicationID} x {bare, !, == c, != c} x both operand orders x every named and numeric "
+             "constant incl. invalid ones x {true, false} - each of Pay/Axfer/ApplUpdateApplication/ApplDeleteApplication whose "
+             "field valuation can make the comparison come out that way is retained. Not decided: propagation through the solver.")
+def c07(ctx, rep):
+    cmptables.rule_kind_tables(ctx, rep)
+    cmptables.rule_set_algebra(ctx, rep, which=("txn_types",))
+    cmptables._store_family_rule(ctx, rep, "T-STORE(kind)", "txn_types")
